@@ -104,6 +104,11 @@ class FilesWorld:
 
     # ------------------------------------------------------------------ generation
     def _text(self, rw, enc, clean_only=False):
+        if not clean_only and rw.random() < 0.07:
+            # degenerate inputs: empty file, only white space, only a comment, no trailing newline / terminator
+            t = rw.choice(["", "\n", "   \n\t\n", "-- only a comment\n", "/* only a block comment */", "create table t (a int)",
+                           "create table t (a int);create table u (b int)"])
+            return t, {"flags": {}, "run": {}, "src": "degenerate"}
         for _ in range(30):
             it = workload.pick_item(rw, 0.5, max_len=3000)
             text = it["ddl"]
@@ -204,10 +209,10 @@ class FilesWorld:
                     continue
                 d, name, enc, it = ro.choice(utf8)
                 rr = ro.random()
-                common = {"target": ro.choice(DUMP_PATHS[:-1]), "v": ro.random() < 0.35, "no_dump": ro.random() < 0.25,
+                common = {"target": ro.choice(DUMP_PATHS[:-1] + (["ABS:in2"] if ro.random() < 0.3 else [])), "v": ro.random() < 0.35, "no_dump": ro.random() < 0.25,
                           "mode": ro.choice([None, None] + self.modes), "faults": faults}
                 if rr < 0.55:
-                    op = dict(common, op="cli_file", dir=d, name=name,
+                    op = dict(common, op="cli_file", dir=d, name=name, rel=ro.random() < 0.2,
                               sub=swarm["subprocess_cli"] and not faults and ro.random() < 0.3)
                 elif rr < 0.9:
                     if swarm["faults"] and rf.random() < 0.5:
@@ -521,7 +526,9 @@ class FilesWorld:
             if k == "cli_file":
                 if (op["dir"], op["name"]) not in files or files[(op["dir"], op["name"])][1] not in ("utf-8", "utf-8-sig"):
                     return None, "skip"
-                argv.append(os.path.join(root, op["dir"], op["name"]))
+                full = os.path.join(root, op["dir"], op["name"])
+                # sometimes spelled relative to the working directory (with a '..' in it)
+                argv.append(os.path.relpath(full, os.path.join(root, "cwd")) if op.get("rel") else full)
             elif k == "cli_dir":
                 argv.append(os.path.join(root, op["dir"]) + ("/" if op.get("slash") else ""))
             else:
